@@ -111,10 +111,25 @@ func (x *Exec) rankCmp(op token.Token, a, b Value, ra, rb *RankStr) *Term {
 			sameGap = tEq(l, r)
 		}
 	}
-	// Two different strings inside one gap are not ordered by their rank: arbitrary answer.
+	// Two different strings inside one gap are not ordered by their rank: arbitrary answer, but the same answer
+	// every time the same pair is compared on this path.
 	if !sameGap.IsConc() && x.sat(sameGap) {
 		if x.branch(sameGap) {
-			return x.fresh("gapcmp", SBool)
+			key := fmt.Sprintf("%p|%p|%v|%v|%d", ra, rb, a, b, op)
+			if ra != nil && rb == nil {
+				key = fmt.Sprintf("%p|%s|%d", ra, b.(*Term).E, op)
+			} else if rb != nil && ra == nil {
+				key = fmt.Sprintf("%s|%p|%d", a.(*Term).E, rb, op)
+			}
+			if t, ok := x.gapMemo[key]; ok {
+				return t
+			}
+			if x.gapMemo == nil {
+				x.gapMemo = map[string]*Term{}
+			}
+			t := x.fresh("gapcmp", SBool)
+			x.gapMemo[key] = t
+			return t
 		}
 	}
 	switch op {
